@@ -1,4 +1,4 @@
-import RSocketModel.Proofs.SendQueue
+import RSocketModel.Proofs.C05Lemmas
 /-!
 # C05 — Per-stream wire order and fragment contiguity under multiplexing
 
@@ -69,17 +69,6 @@ example :
     (run init [.enq ⟨1, [10, 11, 12]⟩, .enq ⟨1, [13]⟩, .enq ⟨2, [20, 21]⟩,
                .step, .step, .step, .step, .step, .step]).wire
       = [(1, 10), (2, 20), (1, 11), (2, 21), (1, 12), (1, 13)] := by decide
-
-/-- What the code did before fix F3 (only the head was moved to the back): the completion `13`
-overtakes fragments `11`, `12` of the same stream. Kept as a witness of the defect. -/
-def stepHeadOnly (s : State β) : State β :=
-  match s.queue with
-  | [] => s
-  | h :: t =>
-    match h.frags with
-    | [] => { s with queue := t }
-    | [f] => { queue := t, wire := s.wire ++ [(h.sid, f)] }
-    | f :: g :: rest => { queue := t ++ [{ h with frags := g :: rest }], wire := s.wire ++ [(h.sid, f)] }
 
 theorem c05_counterexample_head_only :
     wireOf 1 ((stepHeadOnly ∘ stepHeadOnly ∘ stepHeadOnly ∘ stepHeadOnly)
